@@ -88,6 +88,10 @@ def gen_C01(g, tier):
         for tag, kind in mode_kinds(g):
             if kind is None: kind = 'square %s %d %d' % (dhex(0.5), g.randint(2, 5), g.randint(1, 6))
             cs.append(Case('o.c01.lags %s %s' % (hexes(s_), kind), 'orc', 'lags-up-to-unsigned-max-' + tag, check=small_hex_check(1e-300)))
+    # modes that were never configured (unit unpolarised intensity by default), with static storage duration in the caller's
+    # translation unit (constructed before main), as a member of such an aggregate, and on the heap
+    for sel in (0, 1, 2):
+        cs.append(Case('o.c01.moments early %d' % sel, 'orc', 'default-constructed-mode', check=flags_then_small(1, 1e-12)))
     # the process-wide polarization basis is a configuration: the ensemble coherency matrix is convert(S) in every basis
     mids = [s for _, s in stokes_family(g, 4) if 1e-6 < s[0] < 1e6]
     for s in mids[:12 if tier == 'quick' else 200]:
